@@ -1963,6 +1963,11 @@ void Router::markPolylineConnectorsNeedingReroutingForDeletedObstacle(
 
             }
 
+            // b and d are the distances of the two endpoints from the line 
+            // of this edge.  The endpoints may lie on opposite sides of it.
+            b = fabs(b);
+            d = fabs(d);
+
             double x;
             if ((b + d) == 0)
             {
